@@ -232,7 +232,7 @@ def run_path_enum(desc):
     return out
 
 
-GRID_LISTS = [['!skip'], ['!skip', '!other*'], ['*', '!a'], ['-a'], ['*', '-a*'], ['a', 'b'], ['*.txt|!a.txt'], ['!a|!b'], ['**', '!**/a'], ['*/'],
+GRID_LISTS = [['', '!b'], ['!b', ''], ['!b|'], ['|!b'], [''], ['a||b'], ['!skip'], ['!skip', '!other*'], ['*', '!a'], ['-a'], ['*', '-a*'], ['a', 'b'], ['*.txt|!a.txt'], ['!a|!b'], ['**', '!**/a'], ['*/'],
               ['!*/'], ['{a,b}*', '!b*'], ['!.a'], ['*', '!.*'], ['.*', '!.a'], ['a/**', '!a/b'], ['!(a)'], ['!(a)', '!b'], ['\\!a'], ['!!a']]
 GRID_EXCL = [None, 'a', ['a', 'b*'], '!keep', '.*', '*/']
 GRID_FLAGS = ['NEGATE', 'NEGATEALL', 'NODIR', 'MINUSNEGATE', 'SPLIT', 'DOTMATCH', 'GLOBSTAR', 'EXTMATCH', 'BRACE']
